@@ -748,6 +748,9 @@ static void elemHC(Src& c, int scenario) {
             worst = std::max(worst, maxabs(run.k.F[b][k] - sum[b][k])); scale = std::max(scale, maxabs(sum[b][k])); }
         worst = std::max(worst, std::abs(run.k.pe - peSum)); scale = std::max(scale, std::abs(peSum));
         vh::P("sum_over_contacts", "HuntCrossleyForce.multi_contact.early_return", worst, 1e-10 * scale);
+        if (std::getenv("FL_DEBUG_SUM")) {       // commentary line (ignored by driver and pipeline): the independent sum
+            vh::Line Lc("C", "hc_independent_sum"); for (int b = 0; b <= sc.nb; ++b) outSpatial(Lc, sum[b]); Lc.d(peSum); Lc.emit();
+        }
     }
     // per-contact sign / friction predicates, evaluated on scenes with a single sphere-half-space contact
     if (sc.hasHalf && sc.nb == 1 && run.nc == 1) {
